@@ -7,7 +7,7 @@
 From Coq Require Import String.
 From Coq Require Import List NArith Bool.
 From Wbxml Require Import Model.Codec Model.TablesDefs Gen.TablesData Model.Parser Model.TreeBuild Model.TreeConv Model.Conv Model.ConvConcrete
-     Proofs.TreeBuildProofs Proofs.TreeBuildProofs3 Proofs.TreeRoundTrip Proofs.ConvRoundTrip Proofs.ConvSecondIter.
+     Proofs.TreeBuildProofs Proofs.TreeBuildProofs3 Proofs.TreeRoundTrip Proofs.ConvRoundTrip Proofs.ConvSecondIter Proofs.ConvFirstToSecond.
 From Wbxml Require Model.EncWbxml Model.EncWbxmlTables Model.TreeNorm Proofs.EncWbxmlProofs Proofs.EncWbxmlSerialize Proofs.EncWbxmlDenote.
 From Wbxml Require Model.EncXml Model.XmlRead Proofs.EncXmlProofs Proofs.EncXmlIndent.
 From Wbxml Require Model.XmlFront Model.ConvXml2Wbxml Model.LangSelect Proofs.FrontSimple.
@@ -177,6 +177,65 @@ Theorem C03_second_iteration_identical_partial :
 Proof. exact second_iteration_normal. Qed.
 Print Assumptions C03_second_iteration_identical_partial.
 
+(* ================================ end to end ================================ *)
+
+(* C03 at the level of the two conversion models, from hypotheses about the SOURCE only: the hypotheses of the first-iteration
+   theorem, the properties every tree of the front end has for Expat's events (src_ok: every tag name, looked up again in the
+   language's table, gives the same tag - i.e. the names of the tree are unambiguous in the table -, no embedded-document root
+   names, depth below the nesting limit, rows not binary-flagged, texts without NUL, not empty, not adjacent), compact or
+   canonical generation with a white-space policy not stricter than the encoder's (keep_compatible), a language without
+   namespace table and not SyncML, and the reader's hypotheses on the strings.  Then:
+     ONE TRIP    w is converted to x; x reads back (read_xml) as the document with the language's DOCTYPE whose root element has
+                 the source root's name and, as content c, EXACTLY the normalised source children (norm per the encoder's
+                 keep_ws: blank texts dropped, texts trimmed), element for element, text for text;
+     SECOND TRIP the events an XML parser delivers for x make the front end rebuild the normalised tree, the encoder write some
+                 w2 (not always w: C03_ex_second_wbxml_differs), and the second conversion of w2 is x, byte for byte.
+   PARTIAL in: the fragment (the predicates of C03b_roundtrip_fragment_partial), the stated assumption about Expat (events_of_info:
+   one character-data event per text, DOCTYPE as written), the restriction to compact / canonical generation and to languages
+   without namespace table (the other cases: C03_second_iteration_* below when they exist), and src_ok being a hypothesis on the
+   front-end tree rather than a theorem about XmlFront for every event list. *)
+Theorem C03_roundtrip_and_idempotence_partial :
+  forall (main TBL : list lang) (btbl : list EncWbxml.blang) (sub : EncWbxml.bytes -> XmlFront.xtree + N)
+         evs expat_ok o doc w (L : lang) l p t opts nm ch o',
+  let root := EncWbxml.NElt (EncWbxml.TagTok p t opts nm) [] ch in
+  let R2 := EncWbxml.NElt (EncWbxml.TagTok p t opts nm) [] (flat_map (TreeNorm.norm_node (EncWbxml.o_keep_ws o) false) ch) in
+  let root' := tnode_of R2 in
+  let xl := EncXml.xlang_of L in
+  let xo := EncXml.opts_of_params (gen_of (wo_gen o')) (wo_indent o') (wo_keep_ws o') in
+  r_out (ConvXml2Wbxml.xml2wbxml_events main btbl sub evs expat_ok o doc) = Some w ->
+  (forall t0, XmlFront.tree_from_xml main sub doc evs expat_ok = inl t0 ->
+     EncWbxml.find_lang btbl (XmlFront.xt_lang t0) = Some l /\ XmlFront.xt_roots t0 = [root]) ->
+  EncWbxmlSerialize.frag_lang l = true -> EncWbxml.o_use_strtbl o = false -> EncWbxmlProofs.no_pid (EncWbxml.enc_env l o) = true ->
+  EncWbxmlSerialize.frag_node root = true ->
+  find (fun y => l_id y =? l_id L) TBL = Some L ->
+  lang_choice TBL L (EncWbxml.header_public_id (EncWbxml.enc_env l o)) (wo_lang o') -> wo_charset o' = 0 ->
+  EncWbxmlDenote.tree_ok L 0 root = true ->
+  EncWbxml.o_version o < 4 -> EncWbxml.header_public_id (EncWbxml.enc_env l o) < 4294967296 ->
+  EncWbxml.header_public_id (EncWbxml.enc_env l o) <> 0 ->
+  no_data (flat_map EncWbxmlDenote.events_node (TreeNorm.norm (EncWbxml.o_keep_ws o) [root])) = true ->
+  src_ok L 0 root -> EncWbxml.find_lang btbl (l_id L) = Some l ->
+  LangSelect.search_table main (option_map XmlFront.str (EncXml.xl_pub xl)) (Some (XmlFront.str (EncXml.xl_dtd xl))) None = Some L ->
+  EncXml.is_indent xo = false -> EncXml.xl_ns xl = None -> EncXml.is_syncml xl = false -> keep_compatible (EncWbxml.o_keep_ws o) xo ->
+  EncXmlProofs.lang_ok xl = true -> EncXmlIndent.node_ok_g xl xo EncXml.proot None (to_xnode TBL L root') = true ->
+  exists x c d,
+    wbxml2xml_model TBL o' w = mk_res ST_OK (Some (x ++ [0])) (N.of_nat (length x)) /\
+    EncXml.enc_xml_opts xl xo [to_xnode TBL L root'] = EncXml.XOk x /\
+    d = EncXmlProofs.doc_of xl [XmlRead.XE (EncXml.tname_bytes (to_tname L (TagTok p t nm))) [] c] /\
+    c = flat_map (item_of L) (map tnode_of (flat_map (TreeNorm.norm_node (EncWbxml.o_keep_ws o) false) ch)) /\
+    (forall fuel, (EncXmlProofs.node_fuel (to_xnode TBL L root') + 2 <= fuel)%nat -> XmlRead.read_xml fuel x = XmlRead.ROk d) /\
+    events_of_info d = FrontSimple.doc_events (EncXml.xl_root xl) (Some (EncXml.xl_dtd xl)) (EncXml.xl_pub xl) R2 /\
+    forall doc2, doc2 <> [] ->
+      XmlFront.tree_from_xml main sub doc2 (events_of_info d) true = inl (XmlFront.mk_xtree (l_id L) 0 [R2]) /\
+      exists w2, r_out (ConvXml2Wbxml.xml2wbxml_events main btbl sub (events_of_info d) true o doc2) = Some w2 /\
+                 wbxml2xml_model TBL o' w2 = mk_res ST_OK (Some (x ++ [0])) (N.of_nat (length x)).
+Proof. exact roundtrip_and_idempotence. Qed.
+Print Assumptions C03_roundtrip_and_idempotence_partial.
+
+(* the hypotheses about R2 of C03_second_iteration_identical_partial are consequences of src_ok for the source *)
+Theorem C03_normalised_source_is_normal : forall L keep n d, src_ok L d n -> Forall (enormal keep) (TreeNorm.norm_node keep false n).
+Proof. exact norm_enormal. Qed.
+Print Assumptions C03_normalised_source_is_normal.
+
 (* ---- the hypotheses are satisfiable: a WML 1.3 deck through BOTH conversion functions, by computation ----
    <!DOCTYPE wml PUBLIC "-//WAPFORUM//DTD WML 1.3//EN" ...><wml><card><p> a </p><p>  </p></card></wml>
    encoder: WBXML 1.3, no string table, keep_ws off;  generator: compact, language not forced. *)
@@ -264,4 +323,16 @@ Example C03_ex_second_hypotheses :
 Proof.
   vm_compute. repeat split; try reflexivity; try discriminate; try (left; reflexivity); try (right; reflexivity).
   all: try (right; split; reflexivity); repeat constructor.
+Qed.
+
+(* src_ok for the source tree of the example, and the generator conditions (by computation) *)
+Example C03_ex_src_ok :
+  match find (fun x => l_id x =? 1104) main_table with
+  | Some L => src_ok L 0 ex_root /\ keep_compatible (EncWbxml.o_keep_ws ex_o) (EncXml.opts_of_params (gen_of 0) 0 false)
+              /\ EncWbxml.find_lang EncWbxmlTables.main_btable (l_id L) = EncWbxml.find_lang EncWbxmlTables.main_btable 1104
+  | None => False
+  end.
+Proof.
+  vm_compute. repeat split; try reflexivity; try discriminate; try (right; reflexivity).
+  all: repeat constructor.
 Qed.
